@@ -141,7 +141,7 @@ func runC07(c *Ctx) {
 				fmt.Sprintf("uses of the data result on paths where the read error is non-nil = %v (min must be >= 1: bufio returns the last unterminated line together with io.EOF); witness %s", iv, PathString(iv.MinPath)))
 		})
 	}
-	c.Floor("O7.1", "bufio.Reader line reads in the decoders", nRS, 2)
+	c.Floor("O7.1", "bufio.Reader line reads in the decoders", nRS, 1)
 
 	// ---- O7.2 / O7.3 per decoder
 	nHdr, nSeek := 0, 0
@@ -241,13 +241,23 @@ func runC07(c *Ctx) {
 				}
 				if cc := CC(in); cc != nil {
 					if sc := cc.StaticCallee(); sc != nil && sc != g && PkgOf(sc) == PkgOf(g) {
-						reads := false
-						EachInstr(sc, func(i2 ssa.Instruction) {
-							if IsCall(i2, sReadString...) || IsCall(i2, sScannerScan...) || IsCall(i2, Spec{"encoding/json", "Decoder", "Decode"}) {
-								reads = true
-							}
-						})
-						if reads {
+						// a helper of the package that reads (directly, or through another helper: readBlock -> readAmmoLine)
+						var readsIn func(f *ssa.Function, d int) bool
+						readsIn = func(f *ssa.Function, d int) bool {
+							reads := false
+							EachInstr(f, func(i2 ssa.Instruction) {
+								if IsCall(i2, sReadString...) || IsCall(i2, sScannerScan...) || IsCall(i2, Spec{"encoding/json", "Decoder", "Decode"}) {
+									reads = true
+								}
+								if c2 := CC(i2); c2 != nil && d < 3 && !reads {
+									if s2 := c2.StaticCallee(); s2 != nil && s2 != f && s2 != g && PkgOf(s2) == PkgOf(g) && len(s2.Blocks) > 0 {
+										reads = readsIn(s2, d+1)
+									}
+								}
+							})
+							return reads
+						}
+						if readsIn(sc, 0) {
 							return true
 						}
 					}
